@@ -640,4 +640,67 @@ example :
          "min=0,0;max=5,2;chk=L,R,M,011;suc=True;sp=L;ep=R"] := by
   rfl
 
+
+/-! ## limits: exactly at the limit, one below, one above, and no limit at all -/
+
+/-- **paste at the limit.** Nothing is lost iff there is no limit or the offered frames fit
+    (`total ≤ maxlen`, so `total = maxlen` keeps everything); otherwise exactly the first `maxlen`
+    frames are kept (so `total = maxlen + 1` drops exactly the last forward frame). -/
+theorem paste_truncation (back forw np : Path) (ov : Bool) (ml : Option Int)
+    (h : paste back forw ov ml = .ok np) :
+    (np.frames = pasteSeq back forw ov ↔
+        np.maxlen = none ∨ ∃ m, np.maxlen = some m ∧ (pasteSeq back forw ov).length ≤ m.toNat)
+    ∧ (∀ m, np.maxlen = some m → np.frames = (pasteSeq back forw ov).take m.toNat) := by
+  have hf := (paste_order back forw np ov ml h).2.1
+  constructor
+  · cases hm : np.maxlen with
+    | none => rw [hm] at hf; simp [hf, capTake]
+    | some m =>
+      rw [hm] at hf
+      simp only [capTake] at hf
+      rw [hf]
+      simp only [reduceCtorEq, Option.some.injEq, exists_eq_left', false_or]
+      constructor
+      · intro he
+        have := congrArg List.length he
+        rw [List.length_take] at this
+        omega
+      · exact fun hle => List.take_of_length_le hle
+  · intro m hm
+    rw [hm] at hf
+    exact hf
+
+/-- **unlimited paths (`maxlen=None`) are never truncated** by copy, reverse, `+=` or by pasting two
+    unlimited segments, and the result is again unlimited. -/
+theorem unlimited_never_truncates (h : Heap) (p q : Path) (ofn : Option OrderFn) (rv ov : Bool)
+    (hp : p.maxlen = none) (hq : q.maxlen = none) (hwp : WF h p.frames) (hwq : WF h q.frames) :
+    ((Path.copy h p).2.frames.map (Path.copy h p).1.look = p.frames.map h.look ∧ (Path.copy h p).2.maxlen = none)
+    ∧ (vals (Path.reverse h p ofn rv).1 (Path.reverse h p ofn rv).2
+          = (vals h p).reverse.map (Option.map (revVals ofn rv)) ∧ (Path.reverse h p ofn rv).2.maxlen = none)
+    ∧ (Path.iadd h p q).2.frames.length = p.frames.length + q.frames.length
+    ∧ paste p q ov none = .ok ((Path.empty none (p.timeOrigin - (p.frames.length : Int) + 1)).withFrames
+          (pasteSeq p q ov)) := by
+  refine ⟨?_, ?_, ?_, ?_⟩
+  · have := copy_values h p hwp
+    rw [hp] at this
+    exact ⟨this.1, this.2.1⟩
+  · have := reverse_frames h p ofn rv hwp
+    rw [hp] at this
+    exact ⟨this.1, this.2.1⟩
+  · rw [(iadd_frames h p q hwq).1, room_none p _ hp]
+    simp
+  · have hc : pasteMaxlen p.maxlen q.maxlen none = .ok none := by rw [hp, hq]; rfl
+    rw [paste_closed p q ov none none hc]
+    rfl
+
+example :
+    let back : Path := { Path.empty none 0 with frames := [0, 1] }
+    let forw : Path := { Path.empty none 0 with frames := [0, 2] }
+    (paste back forw true (some 3)).map (·.frames) = .ok [1, 0, 2]       -- total = maxlen
+    ∧ (paste back forw true (some 2)).map (·.frames) = .ok [1, 0]        -- total = maxlen + 1
+    ∧ (paste back forw true (some 4)).map (·.frames) = .ok [1, 0, 2]     -- total = maxlen − 1
+    ∧ (paste back forw false none).map (·.frames) = .ok [1, 0, 0, 2]    -- two unlimited segments, no overlap
+    ∧ (paste back forw false none).map (·.maxlen) = .ok none := by
+  refine ⟨rfl, rfl, rfl, rfl, rfl⟩
+
 end Infretis.C15
